@@ -594,6 +594,10 @@ class ConnectionChoiceNode(ChoiceNode):
                         if deg_max == math.inf:
                             deg_max = n_max[ii]
                         deg_list = list(range(deg_min, (deg_max or deg_min)+1))
+                        if len(deg_list) == 0:
+                            # The minimum cannot be reached: keep it as the only (unreachable) degree, so that this
+                            # existence pattern has no valid connections instead of an empty (invalid) override
+                            deg_list = [deg_min]
                     n_conn_override[ii] = deg_list
 
         # Get possible connector node existences, if not available, generate the cartesian product
